@@ -192,6 +192,96 @@ def wl_long(ctx, rng, case):
     case.nontrivial = stats["capacity_changes"] > 0
 
 
+def wl_crowd(ctx, rng, case):
+    """several filters ALIVE AT ONCE whose histories are interleaved: same capacity and bucket size, fingerprints of one byte (so the
+    same fingerprint values occur in all of them) but different hash strategies, plus one bulk filter that takes tens of thousands of
+    distinct keys in the middle.  Whatever one object does must not disturb what another reports: every filter keeps its own model and
+    all models are probed after every call and again after the bulk phase."""
+    import hashlib
+
+    import probables as P
+
+    base = ck.gen_cfg(rng, allow_rate=False)
+    base.finger_size = 1
+    base.capacity = rng.choice([4, 8, 12, 16])
+    base.bucket_size = rng.choice([1, 2, 2, 3])
+    base.max_swaps = rng.choice([2, 3, 5])
+    nkeys = lambda: rng.randint(12, 40)  # of 255 possible one-byte fingerprints: the filters meet the same fingerprint values
+
+    def md5_hash(key):
+        return int(hashlib.md5(key if isinstance(key, bytes) else str(key).encode("utf-8")).hexdigest()[:16], 16)
+
+    def sha_hash(key):
+        return int(hashlib.sha256(key if isinstance(key, bytes) else str(key).encode("utf-8")).hexdigest()[:16], 16)
+
+    sc = bl.Scratch(ctx, case)
+    stats = Counter()
+    members = []
+    for j, (hname, hf) in enumerate([("library_default", None), ("hand_md5_single_value", md5_hash), ("hand_sha256_single_value", sha_hash), ("packed", "packed")]):
+        cfg = ck.Cfg(rng.random() < 0.5, base.capacity, base.bucket_size, base.max_swaps, 1, rng.random() < 0.6, rng.choice([2, 2, 3]), hname, hf if hf != "packed" else None)
+        if hf == "packed":
+            keys = ck.gen_keys(rng, cfg, nkeys())  # may install its own bucket-packing table hash
+        else:
+            keys = [k for k in (f"m{j}-{i}" for i in range(nkeys())) if cfg.raw_fp(k) != 0]
+        if len(keys) < 3:
+            continue
+        ops = ck.gen_history(rng, keys, rng.randint(30, 70), p_remove=0.12, p_expand=0.04, p_reload=0.04)
+        members.append([cfg, keys, ck.iter_history(ctx, P, cfg, keys, ops, sc, make_oracle(ctx, cfg, keys, stats), stats=stats), None, None, len(ops)])
+    case.desc = {"kind": "crowd", "members": [m[0].desc() for m in members], "capacity": base.capacity}
+    bulk_n = rng.choice([70000, 70000, 140000])
+
+    def probe_all(where):
+        for cfg, keys, _, f, model, _ in members:
+            if f is None:
+                continue
+            for k in ctx.alternating(keys):
+                if model.present(k):
+                    ctx.counters["oracle_evaluations"] += 1
+                    if not f.check(k):
+                        ctx.fail(f"a key whose fingerprint was added and not removed is reported absent {where} (several filters alive at once)",
+                                 key=k, filter=cfg.desc(), fingerprint=cfg.raw_fp(k))
+
+    rngscript.start([], fallback=_stdrandom.Random(rng.getrandbits(32)))
+    try:
+        for m in members:
+            m[3], m[4] = next(m[2])
+        live = list(members)
+        steps = 0
+        half = sum(m[5] for m in members) // 2
+        bulk_done = False
+        while live:
+            m = rng.choice(live)
+            try:
+                m[3], m[4] = next(m[2])
+            except StopIteration:
+                live.remove(m)
+                continue
+            steps += 1
+            probe_all(f"after interleaved step {steps}")
+            if not bulk_done and steps >= half:
+                bulk_done = True
+                big = P.CuckooFilter(capacity=rng.choice([5000, 20000]), bucket_size=4, max_swaps=100, auto_expand=True, finger_size=4)
+                for i in range(bulk_n):
+                    big.add(f"bulk-{case.index}-{i}")
+                    if i % 20000 == 19999:
+                        probe_all(f"after {i + 1} additions to another (bulk) filter")
+                for i in rng.sample(range(bulk_n), min(bulk_n, 1500)):
+                    ctx.counters["oracle_evaluations"] += 1
+                    if not big.check(f"bulk-{case.index}-{i}"):
+                        ctx.fail("bulk filter: an added key is reported absent", key=f"bulk-{case.index}-{i}")
+                probe_all(f"after {bulk_n} additions to another (bulk) filter")
+                ctx.count("crowd.bulk_additions", bulk_n)
+                ctx.maximum("crowd.max_bulk_additions_in_one_case", bulk_n)
+        ctx.count("crowd.interleaved_steps", steps)
+        ctx.count("crowd.filters_alive_at_once", len(members) + 1)
+    finally:
+        rngscript.stop()
+        sc.cleanup()
+    for k in ("failed_adds", "failed_expansions", "explicit_expansions", "capacity_changes", "reloads", "probes"):
+        ctx.count(k, stats[k])
+    case.nontrivial = len(members) >= 2 and steps > 10
+
+
 def finish(cov, merged, tier):
     c = merged["counters"]
     cov["decision_sequences_explored"] = int(c.get("resolutions_executed", 0))
@@ -214,6 +304,7 @@ PROP = Prop(
         Workload("zero_fingerprint", wl_zero_fingerprint, quick=80, thorough=2000),
         Workload("explore", wl_explore, quick=200, thorough=5000),
         Workload("long", wl_long, quick=60, thorough=3000),
+        Workload("crowd", wl_crowd, quick=16, thorough=320),
     ],
     assumptions=["fingerprint model uses an independent FNV-1a (ASCII/bytes keys); keys whose raw fingerprint is 0 (the empty-slot marker) appear only in the zero_fingerprint workload, whose histories contain no removals (how 0 is remapped is the library's choice)",
                  "after a failed add the presence of the NEW key is taken from observation (the statement only protects the keys present before)",
